@@ -23,11 +23,13 @@
                        replaced-ID record, or a session whose ID is not due —
                        age below SessionIDExpiry + grace (the backstop)
    probe_q k r2        the request r2 makes when it presents k
+   req_end w r         the state the API calls of step r had reached when the
+                       process stopped (its event log lists the step's calls)
    pres w r            what request step r presents in world w *)
 From Sessions Require Import Model.Base Model.Sess Model.Hist Proofs.SessDefs
   Proofs.HistInv Proofs.HistInv2 Proofs.HistInv3.
 From Sessions Require Import Proofs.CrashFault3 Proofs.CrashFault5 Proofs.CrashFault6 Proofs.LiveHist4.
-From Sessions Require Import Proofs.CrashRestart Proofs.CrashRestart2 Proofs.CrashRestart3.
+From Sessions Require Import Proofs.CrashRestart Proofs.CrashRestart2 Proofs.CrashRestart3 Proofs.CrashRestart4.
 Local Open Scope Z_scope.
 
 (* what the scenario assumes, spelled out *)
@@ -58,6 +60,7 @@ Theorem C10H_crash_world : forall w r n k D U,
   let s' := w_st (fst (step w (HReq r))) in
   exists l s2 o cks,
     start (req_s1 w r) (req_q w r) = (s2, Ok (Some o), cks) /\ l = rev (evs s2) /\
+    length l = length (evs (req_end w r)) /\
     store s' = frozen (req_s1 w r) l n /\
     cache s' = [] /\ plan s' = [] /\ now s' = now (w_st w) /\ conf s' = conf (w_st w) /\
     w_jars (fst (step w (HReq r))) = w_jars w /\
@@ -95,13 +98,77 @@ Proof. exact restart_old_later. Qed.
 Theorem C10H_restart_new : forall w r n k D U r2,
   rot_crash w r n k D U ->
   let w' := fst (step w (HReq r)) in let nid := KGen (supply (w_st w)) in
-  (forall l, evs (fst (fst (start (req_s1 w r) (req_q w r)))) = rev l -> (length l <= n)%nat) ->
+  (length (evs (req_end w r)) <= n)%nat ->
   rq_plan r2 = [] -> rq_crash r2 = None -> pres w' r2 = CKey nid ->
   (forall rk, lookup (store (w_st w')) nid = Some rk ->
      probe_ok (conf (w_st w)) (now (w_st w)) (probe_q nid r2) rk) ->
   ob_res (snd (step w' (HReq r2))) = RSess /\
   exists id rc, ob_start (snd (step w' (HReq r2))) = Some (id, rc) /\ r_ref rc = None /\ full D U rc.
 Proof. exact restart_new. Qed.
+
+(* ---- the ID change made by the handler: script [RegenerateID] ----
+
+   Scenario (regen_crash w r n k o ob): as above, but Start does not rotate: the
+   presented ID k is cached as object o (content ob, a session record), the
+   store holds its durable part (write-through, C09), the record is acceptable
+   and neither due nor past the backstop — Start makes no persistence call —
+   and the script is [SRegen]. D and U are the data and user ID of ob. *)
+Theorem C10H_scenario_handler : forall w r n k o ob,
+  regen_crash w r n k o ob <->
+  sess_inv (w_st w) /\ rq_plan r = [] /\ rq_crash r = Some n /\ rq_script r = [SRegen] /\
+  pres w r = CKey k /\ lookup (cache (w_st w)) k = Some o /\ hget (w_st w) o = Some ob /\
+  r_ref (o_rec ob) = None /\
+  (exists r0, lookup (store (w_st w)) k = Some r0 /\ durable r0 = durable (codec (conf (w_st w)) (o_rec ob))) /\
+  rec_valid (conf (w_st w)) (now (w_st w)) (req_q w r) (o_rec ob) = true /\
+  (c_idexpiry (conf (w_st w)) <=? since (r_created (o_rec ob)) (now (w_st w))) = false /\
+  (sat_add (c_idexpiry (conf (w_st w))) (c_grace (conf (w_st w))) <=? since (r_created (o_rec ob)) (now (w_st w))) = false /\
+  0 < c_grace (conf (w_st w)) /\
+  (forall d k', In (d, k') (pending (w_st w)) -> now (w_st w) < d).
+Proof. exact regen_crash_meaning. Qed.
+
+Theorem C10H_crash_world_handler : forall w r n k o ob,
+  regen_crash w r n k o ob ->
+  let D := dat (o_rec ob) in let U := uid (o_rec ob) in
+  let s' := w_st (fst (step w (HReq r))) in
+  exists l,
+    cache s' = [] /\ plan s' = [] /\ now s' = now (w_st w) /\ conf s' = conf (w_st w) /\
+    store s' = frozen (w_st w) l n /\ length l = length (evs (req_end w r)) /\
+    resolves_to (full D U) (store s') k /\
+    ((length l <= n)%nat -> resolves_to (full D U) (store s') (KGen (supply (w_st w)))).
+Proof. exact crash_store_regen. Qed.
+
+Theorem C10H_restart_old_handler : forall w r n k o ob r2,
+  regen_crash w r n k o ob ->
+  let w' := fst (step w (HReq r)) in
+  rq_plan r2 = [] -> rq_crash r2 = None -> pres w' r2 = CKey k ->
+  (forall rk, lookup (store (w_st w')) k = Some rk ->
+     probe_ok (conf (w_st w)) (now (w_st w)) (probe_q k r2) rk) ->
+  ob_res (snd (step w' (HReq r2))) = RSess /\
+  exists id rc, ob_start (snd (step w' (HReq r2))) = Some (id, rc) /\ r_ref rc = None /\
+                full (dat (o_rec ob)) (uid (o_rec ob)) rc.
+Proof. exact restart_old_regen. Qed.
+
+Theorem C10H_restart_new_handler : forall w r n k o ob r2,
+  regen_crash w r n k o ob ->
+  let w' := fst (step w (HReq r)) in let nid := KGen (supply (w_st w)) in
+  (length (evs (req_end w r)) <= n)%nat ->
+  rq_plan r2 = [] -> rq_crash r2 = None -> pres w' r2 = CKey nid ->
+  (forall rk, lookup (store (w_st w')) nid = Some rk ->
+     probe_ok (conf (w_st w)) (now (w_st w)) (probe_q nid r2) rk) ->
+  ob_res (snd (step w' (HReq r2))) = RSess /\
+  exists id rc, ob_start (snd (step w' (HReq r2))) = Some (id, rc) /\ r_ref rc = None /\
+                full (dat (o_rec ob)) (uid (o_rec ob)) rc.
+Proof. exact restart_new_regen. Qed.
+
+Theorem C10H_ex_scenario_handler : forall n, regen_crash wG (r1G n) n (KGen 1) 0 obG.
+Proof. exact regen_crash_ex. Qed.
+
+Theorem C10H_ex_outcomes_handler :
+  Forall (fun n => exists rk,
+    outcomeG n = (RCrashed, CKey (KGen 1), Some rk, RSess, Some ([(1%N, 2%N)], Some 5%N)) /\
+    probe_ok (conf (w_st wG)) (now (w_st wG)) (probe_q (KGen 1) r2X) rk)
+  [0; 1; 2; 3]%nat.
+Proof. exact restart_regen_ex. Qed.
 
 (* the client's browser never saw a response: its jar still holds the old ID *)
 Theorem C10H_jar_kept : forall w r n c,
@@ -139,6 +206,12 @@ Print Assumptions C10H_crash_world.
 Print Assumptions C10H_restart_old.
 Print Assumptions C10H_restart_old_later.
 Print Assumptions C10H_restart_new.
+Print Assumptions C10H_scenario_handler.
+Print Assumptions C10H_crash_world_handler.
+Print Assumptions C10H_restart_old_handler.
+Print Assumptions C10H_restart_new_handler.
+Print Assumptions C10H_ex_scenario_handler.
+Print Assumptions C10H_ex_outcomes_handler.
 Print Assumptions C10H_jar_kept.
 Print Assumptions C10H_probe.
 Print Assumptions C10H_ex_scenario.
